@@ -86,7 +86,7 @@ syntax "err_leaves" : tactic
 macro_rules
   | `(tactic| err_leaves) => `(tactic|
       (intro st out hstep hout
-       simp only [Pithos.S3.step, Pithos.S3.deleteOp] at hstep
+       simp only [Pithos.S3.stepT, Pithos.S3.deleteOp] at hstep
        repeat' (split at hstep)
        all_goals (first
          | (obtain ⟨rfl, rfl⟩ := Prod.mk.inj hstep; first | rfl | (exfalso; simp at hout; done) | (simp_all; done))
@@ -100,9 +100,10 @@ InvalidPart, InvalidPartOrder, InvalidWriteOffset, BucketNotEmpty, … — retur
 given; only the logical clock (one tick per request, never observable by itself) advances. -/
 theorem step_error_state_eq (q : Quirks) (s : State) (op : Op) (e : Err)
     (h : (step q s op).2 = .err e) : (step q s op).1 = { s with clock := s.clock + 1 } := by
-  have key : ∀ st out, step q s op = (st, out) → out = .err e → st = { s with clock := s.clock + 1 } := by
+  have key : ∀ (s1 : State) st out, stepT q s1 op = (st, out) → out = .err e → st = s1 := by
+    intro s1
     cases op <;> err_leaves
-  exact key _ _ rfl h
+  exact key _ _ _ rfl h
 
 open Pithos.S3 in
 /-- Corollary in the property's words: after a failing operation every bucket — its versioning
